@@ -12,6 +12,9 @@ def key(d):
 SAVE = "--save" in sys.argv
 if SAVE:
     sys.argv.remove("--save")
+WITH_REGRESS = "--with-regress" in sys.argv
+if WITH_REGRESS:
+    sys.argv.remove("--with-regress")
 saved = []
 ids = sys.argv[1:] or sorted((os.path.basename(p) for p in glob.glob(ROOT + "/seeded/C*-*")), key=key)
 if sh("git", "-C", REPO, "status", "--porcelain").stdout.strip():
@@ -30,7 +33,8 @@ for sid in ids:
             continue
         sh("git", "-C", REPO, "reset", "-q")
     try:
-        env = dict(os.environ, VERIF_SEED=os.environ.get("VERIF_SEED", "1"))
+        # the saved regression cases are left out: this measures what the generators find
+        env = dict(os.environ, VERIF_SEED=os.environ.get("VERIF_SEED", "1"), VERIF_NO_REGRESS="" if WITH_REGRESS else "1")
         c = subprocess.run(["python3", ROOT + "/run.py", prop, "quick"], capture_output=True, text=True, env=env)
         viol = [l for l in c.stdout.splitlines() if l.startswith("VIOLATION")]
         ok = c.returncode == 1 and viol
